@@ -29,7 +29,8 @@ def main():
     import importlib
     import t_handlers
     from rsutil import TranslateError
-    base = t_handlers.translate("/repo")["GenHandlers.v"]
+    base_all = t_handlers.translate("/repo")
+    base = base_all["GenHandlers.v"] + base_all["GenHandlersCompletion.v"]
     eq = open(os.path.join(COQ, "proofs", "GenHandlersEq.v")).read().replace(
         "From TG.Gen Require Import GenTokens GenFoldKinds GenHandlers.",
         "From TG.Gen Require Import GenTokens GenFoldKinds.\nFrom TG.Tie Require Import GenHandlers.")
@@ -37,7 +38,12 @@ def main():
     eq2 = open(os.path.join(COQ, "proofs", "GenHandlersSymEq.v")).read().replace(
         "From TG.Gen Require Import GenTokens GenHandlers.",
         "From TG.Gen Require Import GenTokens.\nFrom TG.Tie Require Import GenHandlers.")
-    assert "TG.Tie" in eq2
+    eq2 = eq2.replace("From TG.Proofs Require Import GenHandlersEq.", "From TG.Tie Require Import GenHandlersEq.")
+    eq3 = open(os.path.join(COQ, "proofs", "GenHandlersCompletionEq.v")).read().replace(
+        "From TG.Gen Require Import GenTokens GenCompletion GenAst GenHandlersCompletion.",
+        "From TG.Gen Require Import GenTokens GenCompletion GenAst.\nFrom TG.Tie Require Import GenHandlersCompletion.")
+    assert "TG.Tie" in eq3
+    assert "TG.Tie" in eq2 and "TG.Tie Require Import GenHandlersEq" in eq2
     for arg in sys.argv[1:]:
         patch = os.path.abspath(arg) if arg.endswith(".diff") else os.path.join(VERIF, "seeded", arg, "patch.diff")
         name = os.path.basename(os.path.dirname(patch)) if not arg.endswith(".diff") else os.path.basename(arg)[:-5]
@@ -51,14 +57,17 @@ def main():
             subprocess.run(["git", "-C", wt, "apply", patch], check=True)
             importlib.reload(t_handlers)
             try:
-                gen = t_handlers.translate(wt)["GenHandlers.v"]
+                gen_all = t_handlers.translate(wt)
+                gen = gen_all["GenHandlers.v"] + gen_all["GenHandlersCompletion.v"]
             except TranslateError as ex:
                 print("%-36s refused      %s" % (name, str(ex)[:150]))
                 continue
             if gen == base:
                 print("%-36s identical" % name)
                 continue
-            open(os.path.join(tdir, "GenHandlers.v"), "w").write(gen)
+            open(os.path.join(tdir, "GenHandlers.v"), "w").write(gen_all["GenHandlers.v"])
+            open(os.path.join(tdir, "GenHandlersCompletion.v"), "w").write(gen_all["GenHandlersCompletion.v"])
+            open(os.path.join(tdir, "GenHandlersCompletionEq.v"), "w").write(eq3)
             open(os.path.join(tdir, "GenHandlersEq.v"), "w").write(eq)
             rc, out = coqc(os.path.join(tdir, "GenHandlers.v"), tdir)
             if rc != 0:
@@ -68,6 +77,10 @@ def main():
             rc, out = coqc(os.path.join(tdir, "GenHandlersEq.v"), tdir)
             if rc == 0:
                 rc, out = coqc(os.path.join(tdir, "GenHandlersSymEq.v"), tdir)
+            if rc == 0:
+                rc, out = coqc(os.path.join(tdir, "GenHandlersCompletion.v"), tdir)
+            if rc == 0:
+                rc, out = coqc(os.path.join(tdir, "GenHandlersCompletionEq.v"), tdir)
             if rc != 0:
                 msg = " ".join(out.split())
                 k = msg.find("File ")
